@@ -51,7 +51,10 @@ CHECKS = {
         '(kak_canonicalize_vector: canonical shifts in closed form, three conditional swaps, two conditional double negations, the final shift of z and the boundary '
         'fix) returns coefficients with 0 <= |z| <= y <= x <= pi/4 and z >= 0 when x = pi/4 (C15_canonicalize_canonical), reaches them by symmetry moves only — shifts by '
         'multiples of pi/2, double negations, swaps (C15_canonicalize_move), leaves canonical vectors unchanged (C15_canonical_fixed) and is idempotent '
-        '(C15_canonicalize_idempotent); lemmas cshift_range / cshift_congr / sort3_spec. T2: cirq.kak_canonicalize_vector on all small integer vectors (all chamber '
+        '(C15_canonicalize_idempotent); on the face x = pi/4 the flip (x, y, z) -> (pi/2 - x, y, -z) is a composition of those moves (C15_flip_move), an involution, and the '
+        'canonical form of a vector with z < 0 (C15_face_identifies); one unit below the face such a vector is its own canonical form (C15_below_face_fixed), and flipping it '
+        'brings the two representatives back within one unit (C15_flip_repairs_face_jump: the discontinuity behind the repaired four-FSim defect); lemmas cshift_range / '
+        'cshift_congr / sort3_spec. T2: unitaries at every distance 1e-11 .. 1e-5 from the faces and corners of the chamber; decompose_cphase_into_two_fsim (exact);  cirq.kak_canonicalize_vector on all small integer vectors (all chamber '
         'boundaries) against the model and its local-gate identity; kak_decomposition / kak_vector / kron factoring / single-qubit angle, axis-angle, Pauli-rotation, '
         'PhasedXZ forms / map_eigenvalues; synthesis into <= 3 CZ (partial or not), sqrt-iSWAP (required counts), 4 FSim, MS, Sycamore; two-qubit state preparation; '
         'three-qubit and Shannon synthesis; multi-controlled rotations; Clifford-tableau synthesis — products of returned operations computed by the Lean reference '
